@@ -845,12 +845,20 @@ func (a AssignInstr) Execute(env *Zlisp) error {
 	if err != nil {
 		return err
 	}
+	// like def and set, an assignment is an expression: it leaves its value.
 	switch x := lhs.(type) {
 	case *SexpSymbol:
-		return env.LexicalBindSymbol(x, rhs)
+		err = env.LexicalBindSymbol(x, rhs)
+		if err == nil {
+			env.datastack.PushExpr(rhs)
+		}
+		return err
 	case Selector:
 		Q("AssignInstr: I see lhs is Selector")
 		err := x.AssignToSelection(env, rhs)
+		if err == nil {
+			env.datastack.PushExpr(rhs)
+		}
 		return err
 	case *SexpArray:
 		switch rhsArray := rhs.(type) {
@@ -874,6 +882,7 @@ func (a AssignInstr) Execute(env *Zlisp) error {
 						" we found %T", i, x.Val[i])
 				}
 			}
+			env.datastack.PushExpr(rhs)
 			return nil
 		default:
 			return fmt.Errorf("AssignInstr: don't know how to assign rhs %T `%v` to lhs %T `%v`",
